@@ -17,6 +17,234 @@ pub enum Case {
     Long { lines_before: u32, crlf: bool, tail: u8, chunk: u32, reader: bool, radius: u8 },
     /// one long flow-sequence line with the offending item `items_before` items in, on line `line_no`
     Wide { line_no: u8, items_before: u32, items_after: u32, reader: bool, radius: u8 },
+    /// validation report: eight one-line fields, bit i of `mask` = field i violates its constraint; every issue is
+    /// drawn on its own line whatever the other issues' windows cover. krate: 0 garde, 1 validator
+    ValidLines { krate: u8, mask: u8, gap: u8, radius: u8 },
+    /// validation report reflecting input text: shape 0 = a map key inside the resolved path (garde), 1 = the
+    /// offending value (validator prints it as a parameter), 2 = a key on the offending line (snippet only)
+    ValidReflect { krate: u8, shape: u8, payload: u8, radius: u8 },
+}
+
+pub mod val {
+    pub mod g {
+        use garde::Validate;
+        use serde::Deserialize;
+        use std::collections::BTreeMap;
+        #[derive(Debug, Deserialize, Validate)]
+        pub struct Eight {
+            #[garde(range(min = 2))]
+            pub a: i64,
+            #[garde(range(min = 2))]
+            pub b: i64,
+            #[garde(range(min = 2))]
+            pub c: i64,
+            #[garde(range(min = 2))]
+            pub d: i64,
+            #[garde(range(min = 2))]
+            pub e: i64,
+            #[garde(range(min = 2))]
+            pub f: i64,
+            #[garde(range(min = 2))]
+            pub g: i64,
+            #[garde(range(min = 2))]
+            pub h: i64,
+        }
+        #[derive(Debug, Deserialize, Validate)]
+        pub struct KeyMap {
+            #[garde(dive)]
+            pub m: BTreeMap<String, In>,
+        }
+        #[derive(Debug, Deserialize, Validate)]
+        pub struct In {
+            #[garde(range(min = 10))]
+            pub x: i64,
+        }
+        #[derive(Debug, Deserialize, Validate)]
+        pub struct Name {
+            #[garde(length(min = 40000))]
+            pub name: String,
+        }
+    }
+    pub mod v {
+        use serde::Deserialize;
+        use std::collections::BTreeMap;
+        use validator::Validate;
+        #[derive(Debug, Deserialize, Validate)]
+        pub struct Eight {
+            #[validate(range(min = 2))]
+            pub a: i64,
+            #[validate(range(min = 2))]
+            pub b: i64,
+            #[validate(range(min = 2))]
+            pub c: i64,
+            #[validate(range(min = 2))]
+            pub d: i64,
+            #[validate(range(min = 2))]
+            pub e: i64,
+            #[validate(range(min = 2))]
+            pub f: i64,
+            #[validate(range(min = 2))]
+            pub g: i64,
+            #[validate(range(min = 2))]
+            pub h: i64,
+        }
+        #[derive(Debug, Deserialize, Validate)]
+        pub struct KeyMap {
+            #[validate(nested)]
+            pub m: BTreeMap<String, In>,
+        }
+        #[derive(Debug, Deserialize, Validate)]
+        pub struct In {
+            #[validate(range(min = 10))]
+            pub x: i64,
+        }
+        #[derive(Debug, Deserialize, Validate)]
+        pub struct Name {
+            #[validate(length(min = 40000))]
+            pub name: String,
+        }
+    }
+}
+
+/// eight fields, `gap` comment lines between consecutive fields
+pub fn valid_lines_doc(mask: u8, gap: u8) -> String {
+    let mut s = String::new();
+    for (i, k) in "abcdefgh".chars().enumerate() {
+        s.push_str(&format!("{}: {}\n", k, if mask & (1 << i) != 0 { 1 } else { 5 }));
+        for _ in 0..gap {
+            s.push_str("# -\n");
+        }
+    }
+    s
+}
+
+pub fn valid_reflect_doc(shape: u8, payload: u8) -> String {
+    let (_, written, _) = PAYLOADS[payload as usize];
+    match shape {
+        0 => format!("# one\nm:\n  \"k{}\": {{x: 9}}\n# tail\n", written),
+        1 => format!("# one\nname: \"a{}b\"\n# tail\n", written),
+        _ => format!("# one\nm: {{\"k{}\": {{x: 12}}, other: {{x: 9}}}}\n# tail\n", written),
+    }
+}
+
+fn all_renders(e: &serde_saphyr::Error, source: Option<&str>) -> Result<Vec<(&'static str, String)>, String> {
+    let user = serde_saphyr::UserMessageFormatter;
+    let custom = Custom;
+    let mut off = serde_saphyr::RenderOptions::default();
+    off.snippets = serde_saphyr::SnippetMode::Off;
+    guarded(|| {
+        let mut v = vec![
+            ("display", e.to_string()),
+            ("render", e.render()),
+            ("user", e.render_with_formatter(&user)),
+            ("custom", e.render_with_formatter(&custom)),
+            ("snippets_off", e.render_with_options(off)),
+        ];
+        if let Some(input) = source {
+            let rep = serde_saphyr::miette::to_miette_report(e, input, "input.yaml");
+            v.push(("miette_debug", format!("{:?}", rep)));
+            let mut out = String::new();
+            let h = miette::NarratableReportHandler::new();
+            let _ = h.render_report(&mut out, rep.as_ref());
+            v.push(("miette_narratable", out));
+        }
+        v
+    })
+}
+
+/// (line, column in characters), 1-based, of the first label of a miette report inside the report's own source
+fn miette_label_pos(rep: &miette::Report) -> Option<(u64, u64)> {
+    let d: &dyn miette::Diagnostic = rep.as_ref();
+    let label = d.labels()?.next()?;
+    let src = d.source_code()?;
+    let sc = src.read_span(label.inner(), 0, 0).ok()?;
+    let (line, col_bytes) = (sc.line(), sc.column());
+    let chars = if col_bytes == 0 {
+        0
+    } else {
+        let pre = src.read_span(&miette::SourceSpan::new((label.offset() - col_bytes).into(), col_bytes), 0, 0).ok()?;
+        String::from_utf8_lossy(pre.data()).chars().count()
+    };
+    Some((line as u64 + 1, chars as u64 + 1))
+}
+
+/// the miette adapter's primary label sits at the reported line / column of `source` (given with or without BOM)
+fn judge_miette_label(source: &str, e: &serde_saphyr::Error, v: &mut Verdict, what: &str) {
+    let l = match e.location() {
+        Some(l) => l,
+        None => return,
+    };
+    let pos = match guarded(|| miette_label_pos(&serde_saphyr::miette::to_miette_report(e, source, "input.yaml"))) {
+        Ok(p) => p,
+        Err(p) => {
+            v.fail("render_panic_miette", format!("{}: {}", what, p));
+            return;
+        }
+    };
+    v.compared += 1;
+    // the source as the reader sees it: a leading BOM is not part of line 1
+    let has_bom = source.starts_with('\u{feff}');
+    if let Some((pl, pc)) = pos {
+        let pc_adj = if has_bom && pl == 1 { pc.max(2) - 1 } else { pc };
+        let ok = (pl, pc) == (l.line(), l.column()) || (pl, pc_adj) == (l.line(), l.column());
+        if !ok {
+            v.fail("miette_label_not_at_reported_location", format!("{}: the error is at {}:{} but the miette label is at {}:{} of the source handed to the adapter{}", what, l.line(), l.column(), pl, pc, if has_bom { " (which starts with a byte-order mark)" } else { "" }));
+        }
+    }
+}
+
+fn judge_validation(text: &str, e: &serde_saphyr::Error, bad_lines: &[(u64, u64)], radius: usize, v: &mut Verdict, what: &str) {
+    let renders = match all_renders(e, Some(text)) {
+        Ok(r) => r,
+        Err(p) => {
+            v.fail(&format!("render_panic@{}", panic_site(&p)), format!("{}: rendering panicked: {}", what, p));
+            return;
+        }
+    };
+    v.execs += renders.len() as u32;
+    for (name, rtext) in &renders {
+        v.compared += 1;
+        if let Some(c) = has_forbidden(rtext) {
+            v.fail("control_character_in_report", format!("{}: {} contains U+{:04X}: {:?}", what, name, c as u32, rtext));
+            return;
+        }
+        if name.starts_with("miette") || *name == "snippets_off" || radius == 0 {
+            continue;
+        }
+        let sn = parse_snippet(rtext);
+        for (n, t) in &sn.src {
+            let core = t.trim_start_matches("… ").trim_start_matches('…').trim_end_matches('…');
+            if core.chars().count() > 2 * radius + 1 {
+                v.fail("line_wider_than_window", format!("{}: {} (radius {}) shows {} characters of line {}: {:?}", what, name, radius, core.chars().count(), n, t));
+                return;
+            }
+            if let Some(ln) = line_of(text, *n) {
+                let plain = |s: &str| s.chars().all(|c| (' '..='~').contains(&c));
+                if plain(ln) && plain(core) && !ln.contains(core.trim_start_matches("...").trim_end_matches("...").trim_end()) {
+                    v.fail("shown_line_is_not_that_line_of_the_input", format!("{}: {} shows {:?} as line {} but line {} of the input is {:?}", what, name, t, n, n, ln));
+                    return;
+                }
+            }
+        }
+        // every issue is drawn: its line is shown with a marker under its column
+        for &(bl, bc) in bad_lines {
+            v.compared += 1;
+            let hit = sn.markers.iter().any(|(si, off)| {
+                let (n, shown) = &sn.src[*si];
+                if *n != bl {
+                    return false;
+                }
+                let want = line_of(text, bl).and_then(|ln| ln.chars().nth(bc as usize - 1));
+                let ln = line_of(text, bl).unwrap_or("");
+                let comparable = ln.chars().all(|c| (' '..='~').contains(&c));
+                !comparable || shown.chars().nth(*off) == want
+            });
+            if !hit {
+                v.fail("issue_not_drawn_on_its_line", format!("{}: {} has no marker under line {} column {}: {:?}", what, name, bl, bc, rtext));
+                return;
+            }
+        }
+    }
 }
 
 pub fn wide_doc(line_no: u8, items_before: u32, items_after: u32) -> String {
@@ -202,28 +430,7 @@ pub struct C17;
 fn judge(input: &str, e: &serde_saphyr::Error, radius: usize, reader: bool, v: &mut Verdict, what: &str) {
     // locations refer to the text without its byte-order mark
     let input = input.strip_prefix('\u{feff}').unwrap_or(input);
-    let user = serde_saphyr::UserMessageFormatter;
-    let custom = Custom;
-    let mut off = serde_saphyr::RenderOptions::default();
-    off.snippets = serde_saphyr::SnippetMode::Off;
-    let renders = match guarded(|| {
-        let mut v = vec![
-            ("display", e.to_string()),
-            ("render", e.render()),
-            ("user", e.render_with_formatter(&user)),
-            ("custom", e.render_with_formatter(&custom)),
-            ("snippets_off", e.render_with_options(off)),
-        ];
-        if !reader {
-            let rep = serde_saphyr::miette::to_miette_report(e, input, "input.yaml");
-            v.push(("miette_debug", format!("{:?}", rep)));
-            let mut out = String::new();
-            let h = miette::NarratableReportHandler::new();
-            let _ = h.render_report(&mut out, rep.as_ref());
-            v.push(("miette_narratable", out));
-        }
-        v
-    }) {
+    let renders = match all_renders(e, if reader { None } else { Some(input) }) {
         Ok(r) => r,
         Err(p) => {
             v.fail(&format!("render_panic@{}", panic_site(&p)), format!("{}: rendering panicked: {}", what, p));
@@ -329,7 +536,7 @@ fn judge(input: &str, e: &serde_saphyr::Error, radius: usize, reader: bool, v: &
                         // tabs are expanded and wide characters take two columns in the rendering: the column
                         // arithmetic below is in characters, so such lines are not comparable
                         let tabs = line_of(input, l.line()).map(|ln| ln.contains('\t') || ln.chars().any(|c| (c as u32) >= 0x1100)).unwrap_or(false);
-                        let comparable = !tabs && want.map(|c| !c.is_control() && !(0x80..=0x9f).contains(&(c as u32)) && c != '\u{feff}').unwrap_or(true) && !reader;
+                        let comparable = !tabs && want.map(|c| !c.is_control() && !(0x80..=0x9f).contains(&(c as u32)) && c != '\u{feff}').unwrap_or(true);
                         if comparable && shown != want && !(want.is_none() && shown.map(|c| c == ' ' || c == '…').unwrap_or(true)) {
                             v.fail(
                                 "marker_not_under_reported_column",
@@ -397,11 +604,12 @@ impl Prop for C17 {
                 if *channel == 5 {
                     o.no_schema = true;
                 }
+                let o_first = o.clone();
                 let res = guarded(|| {
                     if *reader {
-                        serde_saphyr::from_reader_with_options::<_, Strict>(ScheduleReader::fixed(text.as_bytes(), 4096), o)
+                        serde_saphyr::from_reader_with_options::<_, Strict>(ScheduleReader::fixed(text.as_bytes(), 4096), o_first)
                     } else {
-                        serde_saphyr::from_str_with_options::<Strict>(&text, o)
+                        serde_saphyr::from_str_with_options::<Strict>(&text, o_first)
                     }
                 });
                 v.execs = 1;
@@ -426,6 +634,48 @@ impl Prop for C17 {
                             _ => "ch_merge_value",
                         });
                         judge(&text, &e, r, *reader, &mut v, &what);
+                        if v.fail.is_none() && !*reader {
+                            judge_miette_label(&text, &e, &mut v, &what);
+                            // the same document behind a byte-order mark, the source handed to the adapter as read
+                            let bom_text = format!("{}{}", '\u{feff}', text);
+                            if let Ok(Err(e2)) = guarded(|| serde_saphyr::from_str_with_options::<Strict>(&bom_text, o.clone())) {
+                                v.execs += 1;
+                                if v.fail.is_none() {
+                                    judge_miette_label(&bom_text, &e2, &mut v, &format!("{} behind a byte-order mark", what));
+                                }
+                            }
+                        }
+                        if v.fail.is_none() {
+                            // snippets switched off in the options: no rendering shows source lines
+                            let mut o2 = o.clone();
+                            o2.with_snippet = false;
+                            let res2 = guarded(|| {
+                                if *reader {
+                                    serde_saphyr::from_reader_with_options::<_, Strict>(ScheduleReader::fixed(text.as_bytes(), 4096), o2)
+                                } else {
+                                    serde_saphyr::from_str_with_options::<Strict>(&text, o2)
+                                }
+                            });
+                            v.execs += 1;
+                            if let Ok(Err(e2)) = res2 {
+                                match all_renders(&e2, None) {
+                                    Err(p) => v.fail("render_panic", format!("{} (with_snippet=false): {}", what, p)),
+                                    Ok(rs) => {
+                                        for (name, t) in rs {
+                                            v.compared += 1;
+                                            if let Some(c) = has_forbidden(&t) {
+                                                v.fail("control_character_in_report", format!("{} (with_snippet=false): {} contains U+{:04X}: {:?}", what, name, c as u32, t));
+                                                break;
+                                            }
+                                            if !parse_snippet(&t).src.is_empty() {
+                                                v.fail("snippet_shown_although_disabled", format!("{}: Options::with_snippet is false but {} shows source lines: {:?}", what, name, t));
+                                                break;
+                                            }
+                                        }
+                                    }
+                                }
+                            }
+                        }
                         v.outcome = hash64(&(*channel, *payload, v.classes.clone()));
                     }
                 }
@@ -459,7 +709,63 @@ impl Prop for C17 {
                             }
                         }
                         judge(&text, &e, r, *reader, &mut v, &what);
+                        if v.fail.is_none() && !*reader {
+                            judge_miette_label(&text, &e, &mut v, &what);
+                        }
                         v.outcome = hash64(&(*reader, v.classes.clone()));
+                    }
+                }
+            }
+            Case::ValidLines { krate, mask, gap, radius } => {
+                let text = valid_lines_doc(*mask, *gap);
+                let r = RADII[*radius as usize];
+                let mut o = serde_saphyr::Options::default();
+                o.crop_radius = r;
+                let res = guarded(|| {
+                    if *krate == 0 {
+                        serde_saphyr::from_str_with_options_valid::<val::g::Eight>(&text, o).map(|_| ())
+                    } else {
+                        serde_saphyr::from_str_with_options_validate::<val::v::Eight>(&text, o).map(|_| ())
+                    }
+                });
+                v.execs = 1;
+                let what = format!("{:?} validated with {} (radius {})", text, ["garde", "validator"][*krate as usize], r);
+                match res {
+                    Err(p) => v.fail("panic", format!("{}: {}", what, p)),
+                    Ok(Ok(())) => v.fail("expected_error", format!("{}: accepted", what)),
+                    Ok(Err(e)) => {
+                        v.nontrivial = mask.count_ones() > 1;
+                        v.classes.push("validation_report");
+                        let bad: Vec<(u64, u64)> = (0..8u64).filter(|i| mask & (1 << i) != 0).map(|i| (1 + i * (1 + *gap as u64), 4)).collect();
+                        judge_validation(&text, &e, &bad, r, &mut v, &what);
+                        v.outcome = hash64(&(*krate, *mask, *gap));
+                    }
+                }
+            }
+            Case::ValidReflect { krate, shape, payload, radius } => {
+                let text = valid_reflect_doc(*shape, *payload);
+                let r = RADII[*radius as usize];
+                let mut o = serde_saphyr::Options::default();
+                o.crop_radius = r;
+                let res = guarded(|| match (*krate, *shape) {
+                    (0, 1) => serde_saphyr::from_str_with_options_valid::<val::g::Name>(&text, o).map(|_| ()),
+                    (0, _) => serde_saphyr::from_str_with_options_valid::<val::g::KeyMap>(&text, o).map(|_| ()),
+                    (_, 1) => serde_saphyr::from_str_with_options_validate::<val::v::Name>(&text, o).map(|_| ()),
+                    _ => serde_saphyr::from_str_with_options_validate::<val::v::KeyMap>(&text, o).map(|_| ()),
+                });
+                v.execs = 1;
+                let what = format!("{:?} validated with {} (radius {})", text, ["garde", "validator"][*krate as usize], r);
+                match res {
+                    Err(p) => v.fail("panic", format!("{}: {}", what, p)),
+                    Ok(Ok(())) => v.fail("expected_error", format!("{}: accepted", what)),
+                    Ok(Err(e)) => {
+                        v.nontrivial = true;
+                        v.classes.push(match e.without_snippet() {
+                            serde_saphyr::Error::ValidationError { .. } | serde_saphyr::Error::ValidatorError { .. } => "validation_report_reflecting_input",
+                            _ => "validation_input_refused_earlier",
+                        });
+                        judge_validation(&text, &e, &[], r, &mut v, &what);
+                        v.outcome = hash64(&(*krate, *shape, *payload));
                     }
                 }
             }
@@ -510,6 +816,24 @@ impl Prop for C17 {
     fn shrink(&self, c: &Case) -> Vec<Case> {
         let mut out = Vec::new();
         match c {
+            Case::ValidLines { krate, mask, gap, radius } => {
+                for i in 0..8 {
+                    if mask & (1 << i) != 0 && mask.count_ones() > 1 {
+                        out.push(Case::ValidLines { krate: *krate, mask: mask & !(1 << i), gap: *gap, radius: *radius });
+                    }
+                }
+                if *gap > 0 {
+                    out.push(Case::ValidLines { krate: *krate, mask: *mask, gap: gap - 1, radius: *radius });
+                }
+                if *radius != 4 {
+                    out.push(Case::ValidLines { krate: *krate, mask: *mask, gap: *gap, radius: 4 });
+                }
+            }
+            Case::ValidReflect { krate, shape, payload, radius } => {
+                if *radius != 4 {
+                    out.push(Case::ValidReflect { krate: *krate, shape: *shape, payload: *payload, radius: 4 });
+                }
+            }
             Case::Wide { line_no, items_before, items_after, reader, radius } => {
                 let mk = |ln: u8, ib: u32, ia: u32, rd: bool, ra: u8| Case::Wide { line_no: ln, items_before: ib, items_after: ia, reader: rd, radius: ra };
                 for ib in [items_before / 2, items_before.saturating_sub(1)] {
@@ -599,6 +923,10 @@ impl Prop for C17 {
                 if *reader { "from_reader" } else { "from_str" },
                 RADII[*radius as usize]
             ),
+            Case::ValidLines { krate, mask, gap, radius } => format!("{}|validation failing fields {:#010b} gap={}|{}|radius={}", clause, mask, gap, ["garde", "validator"][*krate as usize], RADII[*radius as usize]),
+            Case::ValidReflect { krate, shape, payload, radius } => {
+                format!("{}|validation reflecting {} {}|{}|radius={}", clause, ["map key in path", "value", "key on the line"][*shape as usize], PAYLOADS[*payload as usize].0, ["garde", "validator"][*krate as usize], RADII[*radius as usize])
+            }
             Case::Wide { line_no, items_before, items_after, reader, radius } => {
                 format!("{}|wide line={} items_before={} items_after={}|{}|radius={}", clause, line_no, items_before, items_after, if *reader { "from_reader" } else { "from_str" }, RADII[*radius as usize])
             }
@@ -698,6 +1026,23 @@ pub fn run(ctx: &Ctx) -> i32 {
                         }
                         cases.push(Case::Wide { line_no, items_before: ib, items_after: ia, reader, radius });
                     }
+                }
+            }
+        }
+    }
+    // (e) validation reports: every subset of eight failing one-line fields x spacing; reflected input text
+    for krate in 0..2u8 {
+        for mask in 1..=255u8 {
+            for gap in 0..ctx.tier.pick(2u8, 5u8) {
+                for radius in ctx.tier.pick(vec![4u8], vec![1u8, 4, 5]) {
+                    cases.push(Case::ValidLines { krate, mask, gap, radius });
+                }
+            }
+        }
+        for shape in 0..3u8 {
+            for payload in 0..PAYLOADS.len() as u8 {
+                for radius in 0..RADII.len() as u8 {
+                    cases.push(Case::ValidReflect { krate, shape, payload, radius });
                 }
             }
         }
